@@ -616,3 +616,71 @@ Proof.
         specialize (H3 _ Hin). apply andb_true_iff in H3. destruct H3.
         split; [now apply leaf_attr_b_sound|now apply default_ok_b_sound].
 Qed.
+
+
+(* ------------------------------------------------------------------ *)
+(** * transform_<a> / update_<a>() in place *)
+Definition recv_inst_leafa_b (ct : ctable) (h : heap_t) (recv : val) (a : aid) : bool :=
+  match recv with
+  | VRef l =>
+      match nth_error h l with
+      | Some (OInst cl d) =>
+          match lookup_cls ct cl with
+          | Some k => match lookup_attr k a with Some sp => leaf_attr_b sp | None => true end
+          | None => false end
+      | _ => false end
+  | _ => false
+  end.
+
+(* Operations covered: those of owned_opg_b, and transform_<a>(f, _inplace=True) (f quiet) and
+   update_<a>(_inplace=True) without a new value: the value the attribute holds is prepared
+   again and stored back *)
+Definition owned_opi_b (ct : ctable) (h : heap_t) (roots : list val) (o : op) : bool :=
+  owned_opg_b ct h roots o ||
+  match o with
+  | OpHelper x (HTransform a) hh =>
+      h_inplace hh && is_nil (h_kwfn hh) && oqfn_b (h_fn hh) &&
+      recv_inst_leafa_b ct h (nth x roots VNone) a && dflt_nonref_b ct h (nth x roots VNone) a
+  | OpHelper x (HUpdate a) hh =>
+      h_inplace hh && is_none (h_kw hh) && is_missing (pos0 hh) &&
+      recv_inst_leafa_b ct h (nth x roots VNone) a && dflt_nonref_b ct h (nth x roots VNone) a
+  | _ => false
+  end.
+
+Theorem step_preserves_owned_i ct roots o s :
+  flat_table ct -> inval_ok_b ct = true -> no_reserved_b ct = true ->
+  owned_opi_b ct (heap s) roots o = true ->
+  TypeInv ct s -> Owned ct (heap s) ->
+  TypeInv ct (snd (step ct roots o s)) /\ Owned ct (heap (snd (step ct roots o s))).
+Proof.
+  intros Hf Hn Hr Hop T O. unfold owned_opi_b in Hop. apply orb_true_iff in Hop.
+  destruct Hop as [Hop|Hop]; [now apply step_preserves_owned_h|].
+  pose proof (inval_ok_spec ct Hf (inval_ok_b_sound ct Hn)) as Hn'.
+  assert (I : Inv ct (heap s)) by (split; auto).
+  change (Inv ct (heap (snd (step ct roots o s)))).
+  destruct o as [| | | x hp hh | |]; try discriminate.
+  unfold step. destruct (nth x roots VNone) as [| | | | | | | |l] eqn:Er;
+    try (destruct hp; exact I).
+  cbn [loc_of]. rewrite bind_ret_l.
+  assert (Recv : forall a, recv_inst_leafa_b ct (heap s) (VRef l) a = true ->
+            dflt_nonref_b ct (heap s) (VRef l) a = true ->
+            exists cl d k, nth_error (heap s) l = Some (OInst cl d) /\ lookup_cls ct cl = Some k /\
+              (forall sp, lookup_attr k a = Some sp -> leaf_attr sp) /\
+              (assoc a d = None -> nonref (class_default k a))).
+  { intros a H1 H2. simpl in H1, H2.
+    destruct (nth_error (heap s) l) as [[| | |cl d]|] eqn:N; try discriminate.
+    destruct (lookup_cls ct cl) as [k|] eqn:Hk; [|discriminate].
+    exists cl, d, k. split; auto. split; auto. split.
+    - intros sp Ha. rewrite Ha in H1. now apply leaf_attr_b_sound.
+    - intros As. rewrite As in H2. now apply nonref_b_sound. }
+  destruct hp; try discriminate.
+  - rewrite !andb_true_iff in Hop. destruct Hop as [[[[H1 H2] H3] H4] H5].
+    assert (Hkw : h_kw hh = None) by (destruct (h_kw hh); auto; discriminate).
+    assert (Hp : pos0 hh = VMissing) by (destruct (pos0 hh); simpl in H3; try discriminate; reflexivity).
+    destruct (Recv a H4 H5) as (cl & d & k & N & Hk & Hla & D).
+    eapply update_inplace_noarg; eauto.
+  - rewrite !andb_true_iff in Hop. destruct Hop as [[[[H1 H2] H3] H4] H5].
+    assert (Hkf : h_kwfn hh = []) by (destruct (h_kwfn hh); auto; discriminate).
+    destruct (Recv a H4 H5) as (cl & d & k & N & Hk & Hla & D).
+    eapply transform_inplace; eauto. now apply oqfn_b_sound.
+Qed.
